@@ -270,6 +270,22 @@ def ob_cpu_count(os_cpus: int, os_none: bool, aff: int, has_aff: bool, loky: int
     return H.verdict(r == exp and r >= 1, "cpu_count()=%r expected %r" % (r, exp))
 
 
+def ob_cpu_count_twice_native(os_cpus: int, aff1: int, aff2: int, loky1: int, loky2: int, has_loky: bool) -> bool:
+    """
+    pre: 1 <= os_cpus <= 4
+    pre: 1 <= aff1 <= 4 and 1 <= aff2 <= 4
+    pre: 1 <= loky1 <= 3 and 1 <= loky2 <= 3
+    post: _
+    """
+    # same history, run natively per case: CrossHair makes functools caches transparent while tracing, so
+    # memoisation slips (a stale answer served from a cache) are only visible in a native run
+    H.enter()
+    vals = [H.select(os_cpus, 1, 4), H.select(aff1, 1, 4), H.select(aff2, 1, 4), H.select(loky1, 1, 3), H.select(loky2, 1, 3)]
+    hl = bool(has_loky)
+    with H.native():
+        return _cpu_twice(vals[0], vals[1], vals[2], vals[3], vals[4], hl)
+
+
 def ob_cpu_count_twice(os_cpus: int, aff1: int, aff2: int, loky1: int, loky2: int, has_loky: bool) -> bool:
     """
     pre: 1 <= os_cpus <= 64
@@ -278,6 +294,10 @@ def ob_cpu_count_twice(os_cpus: int, aff1: int, aff2: int, loky1: int, loky2: in
     post: _
     """
     H.enter()
+    return _cpu_twice(os_cpus, aff1, aff2, loky1, loky2, has_loky)
+
+
+def _cpu_twice(os_cpus, aff1, aff2, loky1, loky2, has_loky):
     # the environment changes between two calls (taskset / LOKY_MAX_CPU_COUNT set later): the second answer must
     # reflect the second environment
     import joblib.externals.loky.backend.context as ctx
@@ -447,6 +467,8 @@ def obligations(tier, seed):
     obs.append({"name": "cpu_count", "fn": "ob_cpu_count", "timeout": 240,
                 "bounds": "os.cpu_count() None or 1..512, affinity 1..512 or absent, LOKY_MAX_CPU_COUNT -4..600 or "
                           "unset, cgroup limit 1..600 / 'max' / absent"})
+    obs.append({"name": "cpu_count_twice_native", "fn": "ob_cpu_count_twice_native", "mode": "S", "timeout": 300,
+                "bounds": "as cpu_count_twice with values 1..4, each case run natively (memoisation visible)"})
     obs.append({"name": "cpu_count_twice", "fn": "ob_cpu_count_twice", "timeout": 240,
                 "bounds": "two consecutive cpu_count() calls, affinity / LOKY_MAX_CPU_COUNT changing in between (1..64)"})
     obs.append({"name": "executor_reuse", "fn": "ob_reuse", "harness": "harness.C10", "mode": "S", "timeout": 300,
